@@ -351,6 +351,11 @@ def run(tier, seed, factor=1):
         lean = [l for l in lean if l != ""]
         assert len(lean) == len(batch), (drv, len(lean), len(batch))
         for o, l in zip(batch, lean):
+            if " wfu=" in l:
+                # the strategy contract the engine theorems assume (WFU), evaluated by the proven checker wfuB for this universe
+                res.dist["engine theorems' hypothesis WFU holds for the universe" if " wfu=1 " in l else
+                         "universe outside WFU (engine theorems do not apply; correspondence only)"] += 1
+                l = l.replace(" wfu=1 ", " ").replace(" wfu=0 ", " ")
             if l != o["expect"]:
                 mo, _, me = l.partition(" | ")
                 po, _, pe = o["expect"].partition(" | ")
